@@ -93,9 +93,11 @@ def idle_violations(spec, obs, sc_idx=0):
         booked_any[rid] = {s: sum(x for _p, x in lst if x > EPS) for s, lst in led.items() if any(x > EPS for _p, x in lst)}
 
     def foreign_edge_inside(members, i, me, backward):
-        """Does another task begin (forward view) / end (backward view) strictly inside slot i?
-        Then part of the free seconds lies on the far side of that task, where the position-less
-        slot ledger cannot hand it out (known finding F02)."""
+        """Does another *forward* task begin strictly inside slot i?  A forward task that is delayed into
+        the slot (dependency / gap offset) marks the seconds before its start as used although nobody
+        works then; the position-less slot ledger cannot hand them out to anybody, whatever the
+        direction of the task that passes by (known finding F02).  A backward task that begins inside
+        the slot merely took the tail; the head stays bookable and is judged."""
         a, b = rules.slot_bounds(obs, i)
         for r in members:
             for q, x in sc.ledger.get(r, {}).get(i, []):
@@ -104,9 +106,8 @@ def idle_violations(spec, obs, sc_idx=0):
                 qo = tm.get(q)
                 if qo is None or qo.start is None or qo.end is None:
                     continue
-                if not backward and a + timedelta(seconds=1) < qo.start < b:
-                    return True
-                if backward and a < qo.end < b - timedelta(seconds=1):
+                q_backward = rules.explicit_backward(spec, q) or q in back_closure
+                if not q_backward and a + timedelta(seconds=1) < qo.start < b:
                     return True
         return False
 
